@@ -1,0 +1,15 @@
+//go:build !verif
+
+// Package verifhook provides instrumentation points used by the external
+// verification harness. With the "verif" build tag off every function in this
+// package is an empty, inlinable no-op.
+package verifhook
+
+// Enabled reports whether the hooks are compiled in.
+const Enabled = false
+
+// Point is a no-op without the verif build tag.
+func Point(string, ...any) {}
+
+// Event is a no-op without the verif build tag.
+func Event(string, ...any) {}
